@@ -403,6 +403,12 @@ const AllocBound = 48 << 20
 // stack — the function names in the stack are what known-finding patterns match on), and the
 // call may not allocate more than AllocBound (class "alloc-bomb").
 func Guard(x *hysim.Run, what string, in []byte, f func()) (panicked bool) {
+	if in != nil {
+		// the code under test may rewrite its input in place: report what was handed in
+		orig := in
+		in = make([]byte, len(orig))
+		copy(in, orig)
+	}
 	a0 := AllocBytes()
 	defer func() {
 		if r := recover(); r != nil {
